@@ -52,6 +52,8 @@ type e2Case struct {
 	// file runs: tokens for which a stage wrote a file / returned a path
 	tokensWritten  map[string]bool
 	tokensReturned map[string]bool
+	// tokens their producer wrote as a directory
+	tokensDir map[string]bool
 	*mrprun.Case
 	prog  *mrogen.Program
 	src   string
@@ -851,7 +853,9 @@ func (c *e2Case) fileEntries() []*filesim.Entry {
 // was a symbolic link) at the content its token stands for.
 func (c *e2Case) e2Outs(t *rapid.T, pos string, ty mrogen.Ty, want, got any, nested *int) {
 	prog := c.prog
-	if prog.FileKind(ty) < 2 {
+	if _, soft := want.(refsem.SoftNull); soft || prog.FileKind(ty) < 2 {
+		// (the result of a disabled or empty mapped call: null, an empty
+		// collection or a collection of nulls, whatever its type)
 		if ok, d := refsem.EqualSoft(want, c.normPs(got), pos); !ok {
 			fail(t, "C13", "outs-record-differs", "%s\n%s", d, c.describe())
 		}
@@ -916,6 +920,15 @@ func (c *e2Case) e2Outs(t *rapid.T, pos string, ty mrogen.Ty, want, got any, nes
 		}
 		if !c.tokensWritten[tok] {
 			kind = "never"
+		} else if (kind == "dir") != c.tokensDir[tok] {
+			// what is on disk was decided by the type at the producer (a
+			// string output that a struct conversion turns into a path was
+			// written as a file, not as a directory)
+			if c.tokensDir[tok] {
+				kind = "dir"
+			} else {
+				kind = "file"
+			}
 		}
 		if kind == "never" {
 			if got != nil {
@@ -1018,12 +1031,15 @@ func TestE2Files(t *testing.T) {
 		c.logf("vdr mode %s", mode)
 		recs := c.Ledger()
 		entries := c.fileEntries()
-		c.tokensWritten, c.tokensReturned = map[string]bool{}, map[string]bool{}
+		c.tokensWritten, c.tokensReturned, c.tokensDir = map[string]bool{}, map[string]bool{}, map[string]bool{}
 		for _, e := range entries {
 			if e.Kind == "out" {
 				c.tokensReturned[e.Token] = true
 				if e.Written {
 					c.tokensWritten[e.Token] = true
+					if e.IsDir {
+						c.tokensDir[e.Token] = true
+					}
 				}
 			}
 		}
